@@ -82,7 +82,7 @@ def run(res, tier):
     if ndec < 150:
         raise AnalysisBroken('PROGRESS decided only %d loops reachable from the dispatcher (expected several hundred): call graph or entry set is broken' % ndec)
     from msa import reach as R
-    R.rec_rule(res, fx, cg, entries, reach, 'R-REC', anchor_files=ANCHOR_FILES)
+    R.rec_rule(res, fx, cg, entries, reach, 'R-REC', anchor_files=ANCHOR_FILES, side_nesting=True)
     R.crash_rule(res, fx, cg, entries, reach, 'R-CRASH', taint_entry=False)
     res.extra['loops_seen'] = nloops
     res.extra['entries'] = ENTRIES
